@@ -48,6 +48,12 @@ CLAIMED = {
         "note": "Plugin checks must implement reset() completely.",
         "design_ref": "DESIGN.md section 4, C08",
     },
+    "C10": {
+        "technique": "exception-escape fixpoint over the resolved call graph (raise sites, frozen external-raiser table, assert triage, handler lattice) at every API entry point; error-mode token tables of the range constructors",
+        "text": "For each entry point (CID loading, rows/validate, Reader, Writer, the command line's process) every escaping exception class is inside the allowed cutplace/OSError set or named with its raising site and call chain; 146 value-dependent asserts triaged; range constructors never raise anything but InterfaceError on any token sequence.",
+        "note": "Unmodelled: type errors of type-correct code, StopIteration of the repository's own token generators, resource exhaustion, plugin code; external raisers are a frozen table with reasons. Known findings F18 (ODS OSError) and F27 (--create on open Integer range).",
+        "design_ref": "DESIGN.md section 2.6, 2.7 and section 4, C10",
+    },
     "C13": {
         "technique": "abstract interpretation of rowio.fixed_rows (incl. nested delimiter automaton and push-back) on every abstract character stream over the class abstraction {CR, LF, other} up to a length bound; oracle = the statement (identity-tracked reproduction of the input, reference segmentation)",
         "text": "For every stream up to 5 (thorough 7) abstract characters, three width lists and the five delimiter settings: rows have exact widths and reproduce the input with permitted delimiters, or DataFormatError is raised and no well-formed segmentation exists.",
